@@ -24,6 +24,7 @@ CONTENTS = [
     P.notes_to_abs([(0, 60, 0, 5, 80), (0, 60, 7, 12, 70), (0, 64, 3, 20, 60)],
                    [P.ts(0, 4, 4), P.ks(0, "D"), P.ts(12, 3, 4), P.cc(5, 64, 100)], dur=30),
     P.notes_to_abs([(0, 105, 0, 12, 80), (0, 22, 12, 24, 90)], [P.ks(0, "Bb")], dur=36),
+    P.notes_to_abs([(0, 60, 0, 8, 80), (1, 61, 0, 8, 70), (0, 60, 8, 16, 60), (1, 67, 8, 20, 50)], [P.ts(0, 2, 4), P.pc(0, 5), P.ts(16, 3, 4)]),
 ]
 OTHER = P.notes_to_abs([(0, 67, 2, 9, 75)], [P.ts(0, 3, 4)], dur=12)
 OVERWRITE = P.notes_to_abs([(0, 50, 1, 4, 33), (0, 52, 4, 9, 44)], dur=15)
@@ -52,7 +53,11 @@ def public_call(seq, op):
     elif op == "add_relative_message":
         seq.add_relative_message(P.mk(P.wait(3)))
     elif op == "concatenate":
-        seq.concatenate([P.seq_from_abs(OTHER)])
+        # the argument arrives in a rotating freshness state: its own views must be read through the accessors
+        k = len(seq.rel._messages) % 3
+        arg = P.seq_from_abs(OTHER) if k == 0 else Sequence(relative_sequence=RelativeSequence([P.mk(m) for m in P.abs_to_rel(OTHER)])) \
+            if k == 1 else P.seq_from_abs(OTHER).copy()
+        seq.concatenate([arg])
     elif op == "normalise":
         seq.normalise()
     elif op == "pad":
@@ -65,7 +70,9 @@ def public_call(seq, op):
         if seq.transpose(1):
             return seq, "transpose_wrap"   # a note at the range limit had to be wrapped: composite form
     elif op == "merge":
-        seq.merge([P.seq_from_abs(OTHER)])
+        k = len(seq.abs._messages) % 2
+        arg = P.seq_from_abs(OTHER) if k == 0 else Sequence(relative_sequence=RelativeSequence([P.mk(m) for m in P.abs_to_rel(OTHER)]))
+        seq.merge([arg])
     elif op == "quantise_and_normalise":
         seq.quantise_and_normalise([4], [4, 8, 12])
     elif op == "scale_requantise":
